@@ -14,8 +14,8 @@ pub fn char_width(ch: char) -> usize {
     match ch {
         '\u{0}'..='\u{1f}' | '\u{7f}' => 0,
         ' '..='~' => 1,
-        '\u{200b}' | '\u{200d}' | '\u{301}' => 0,
-        '日' | '本' | '語' | '好' => 2,
+        '\u{200b}' | '\u{200d}' | '\u{301}' | '\u{3099}' => 0,
+        '日' | '本' | '語' | '好' | 'か' => 2,
         'é' | 'ö' | '█' | '░' | '▓' | '▒' | '⠁'..='⣿' => 1,
         _ => console::measure_text_width(&ch.to_string()),
     }
